@@ -786,4 +786,43 @@ example : gfValid 3 2 2 := by decide
 example : (gfCase true 2 2 1 [(.state, true), (.exogenous, true), (.unknown, true), (.all, false), (.correction, true)] 2).Safe := by decide
 example : logValid (logSpecOf 3 0 0) := by decide
 
+/-! ## Round 4 (b): `getLikelihood()` after the measurement model changed its size -/
+
+/-- `SUKFCorrection::getLikelihood()` reads the measurement model's noise covariance AT QUERY TIME while `innovations_` /
+    `propagated_sigma_points_` are those of the last successful correction.  After a successful correction with `m1` rows,
+    the model switching to `m2` rows, and then the query at once / after a skipped `correct()` / after a real `correct()`:
+    safe whenever the current noise covariance still covers the stored innovations (reduced mode, or the members were renewed,
+    or `m1 ≤ m2`). -/
+theorem safe_sukf_likelihood_query_partial (reduced : Bool) (sub m1 m2 : Nat) (how : LikQHow) (K : Nat)
+    (h : likqValid 2 sub m1 m2 K) (hc : likqCovered reduced m1 m2 how) : (likqCase 2 reduced sub m1 m2 how K).Safe := by
+  obtain ⟨hK, hm1, hm2, hs⟩ := h
+  obtain ⟨hsub, _, _⟩ := hs rfl
+  unfold likqCase
+  simp only [safe_bind, safe_pure, and_true]
+  exact sukfLikQuery_safe K sub m1 m2 reduced how hK hm1 hm2 hsub hc
+
+/-- the query function itself: any members `m × Ki`, `m × p` against a noise covariance of `rr ≥ m` rows (full) / `sub` rows (reduced) -/
+theorem safe_sukf_likelihood_cover (m Ki p rr sub : Nat) (reduced : Bool) (hsub : 0 < sub) (hK : 0 < Ki)
+    (hrr : if reduced then rr = sub else m ≤ rr) : (sukfLikelihood ⟨m, Ki⟩ ⟨m, p⟩ rr sub reduced).Safe :=
+  sukfLikelihood_cover_safe m Ki p rr sub reduced hsub hK hrr
+
+set_option maxRecDepth 8000 in
+/-- GENUINE DEFECT (key `sukf-likelihood-noise-shrunk`): a valid configuration — measurement of 4 rows (sub-size 2, full noise
+    covariance 4 × 4), one successful correction, the model then measures 2 rows (R is 2 × 2) — on which the query is NOT safe,
+    neither at once nor after a skipped correction: `getNoiseCovarianceMatrix(1)` takes `R.block(2, 2, 2, 2)` of a 2 × 2 matrix.
+    After a real correction, and in reduced mode, the same history is safe. -/
+theorem unsafe_sukf_likelihood_noise_shrunk_counterexample :
+    likqValid 2 2 4 2 1 ∧
+    ¬ (likqCase 2 false 2 4 2 .queryOnly 1).Safe ∧ ¬ (likqCase 2 false 2 4 2 .skippedCorrect 1).Safe ∧
+    (likqCase 2 false 2 4 2 .correct 1).Safe ∧ (likqCase 2 true 2 4 2 .queryOnly 1).Safe ∧
+    ¬ (sukfLikelihood ⟨4, 1⟩ ⟨4, 7⟩ 2 2 false).Safe := by
+  refine ⟨by decide, by decide, by decide, by decide, by decide, by decide⟩
+
+set_option maxRecDepth 8000 in
+/-- UKFCorrection (both constructors) and KFCorrection answer from their own members: the same histories are safe whatever the sizes -/
+example : (likqCase 0 false 1 4 2 .queryOnly 2).Safe ∧ (likqCase 1 false 1 4 2 .skippedCorrect 2).Safe ∧
+    (likqCase 3 false 1 4 2 .queryOnly 2).Safe ∧ (likqCase 3 false 1 2 4 .skippedCorrect 2).Safe := by
+  refine ⟨by decide, by decide, by decide, by decide⟩
+example : likqValid 2 2 4 6 3 ∧ likqCovered false 4 6 .skippedCorrect := by decide
+
 end BFL.Bounds
